@@ -21,6 +21,8 @@ func runC07(c *Ctx) {
 	L := c.L
 	c.checkNaNClamp()
 	c.checkMutationClasses("mutation-classes")
+	c.checkRecordedParams("options-recorded", "distance/dna", "InitModel")
+	L.Floor("options-recorded", 4, "gamma and alpha of the five corrected models")
 	c.checkResidueIndexTables("residue-index-tables")
 	if c.Thorough() {
 		c.checkIntQuotientShares("truncated-share")
